@@ -780,7 +780,7 @@ def g_utf8_bytes(flags="ncb"):
         if ord(c) in (0x85, 0x2028):
             pass
         doc = "<r a='%sble' b=\"x%s\">t%su<!--%s--><?p %s?><![CDATA[%s]]></r>" % (c, c, c, c, c, c)
-        out.append(Case(doc, flags, True, meta={"gen": "utf8-byte", "cp": ord(c)}))
+        out.append(Case(doc, flags, True, meta={"gen": "utf8-byte", "cp": ord(c), "expect_all_borrowed": True}))
     return out
 
 
